@@ -598,3 +598,137 @@ Proof.
     + destruct Ht as (-> & ->). cbn [Nat.eqb andb]. apply bytes_eqb_refl.
     + destruct Ht as (-> & ->). cbn [Nat.eqb andb]. apply bytes_eqb_refl.
 Qed.
+
+(* ------------------------------------------------------------- single-byte corruption *)
+
+Lemma frame_spec_shape h pdu :
+  exists pre da' sa' fcb payload,
+    data_shape pre (length payload) /\
+    frame_spec h pdu = pre ++ (da' :: sa' :: fcb :: payload) ++ [sum8 (da' :: sa' :: fcb :: payload); ED].
+Proof.
+  unfold frame_spec.
+  assert (B : exists da' sa' fcb payload, frame_body h pdu = da' :: sa' :: fcb :: payload).
+  { unfold frame_body. cbn [app]. eauto. }
+  destruct B as (da' & sa' & fcb & payload & ->). cbn [length].
+  destruct (Nat.eqb_spec (S (S (S (length payload)))) 3) as [E3|E3];
+    [|destruct (Nat.eqb_spec (S (S (S (length payload)))) 11) as [E11|E11]].
+  - exists [SD1], da', sa', fcb, payload. split; [|reflexivity].
+    replace (length payload) with 0%nat by lia. constructor.
+  - exists [SD3], da', sa', fcb, payload. split; [|reflexivity].
+    replace (length payload) with 8%nat by lia. constructor.
+  - exists [SD2; Z.of_nat (length payload + 3); Z.of_nat (length payload + 3); SD2], da', sa', fcb, payload.
+    split; [constructor|]. replace (S (S (S (length payload)))) with (length payload + 3)%nat by lia. reflexivity.
+Qed.
+
+Lemma subst_body3 a b c (p : bytes) i v : (i < length (a :: b :: c :: p))%nat ->
+  exists a' b' c' p', subst (a :: b :: c :: p) i v = a' :: b' :: c' :: p' /\ length p' = length p.
+Proof.
+  intros H. destruct i as [|[|[|i]]].
+  - exists v, b, c, p. split; reflexivity.
+  - exists a, v, c, p. split; reflexivity.
+  - exists a, b, v, p. split; reflexivity.
+  - exists a, b, c, (subst p i v). rewrite !subst_cons_S. split; [reflexivity|].
+    apply subst_length. cbn [length] in H. lia.
+Qed.
+
+Lemma shape_single_byte pre da' sa' fcb payload pos v :
+  data_shape pre (length payload) ->
+  let body := da' :: sa' :: fcb :: payload in
+  let F := pre ++ body ++ [sum8 body; ED] in
+  (pos < length F)%nat -> is_byte (nth pos F 0) -> is_byte v -> v <> nth pos F 0 ->
+  (pos = 0%nat -> is_delim v = false) ->
+  decode_spec (subst F pos v) = Reject.
+Proof.
+  intros Hsh body F Hpos Hx Hv Hne Hdel. subst F.
+  rewrite !app_length in Hpos. cbn [length] in Hpos.
+  destruct (Nat.ltb_spec pos (length pre)) as [Hp|Hp].
+  - (* inside the start of the frame *)
+    rewrite app_nth1 in Hne by exact Hp. rewrite subst_app_l by exact Hp.
+    remember (length payload) as n eqn:En. revert En Hp Hne.
+    destruct Hsh as [ | |n]; intros En Hp Hne; cbn [length] in Hp.
+    + assert (pos = 0%nat) by lia. subst pos. rewrite subst_cons_0. cbn [app].
+      apply view_sound, V_nodelim, Hdel. reflexivity.
+    + assert (pos = 0%nat) by lia. subst pos. rewrite subst_cons_0. cbn [app].
+      apply view_sound, V_nodelim, Hdel. reflexivity.
+    + assert (L2 : (2 <= length (body ++ [sum8 body; ED]))%nat) by (rewrite app_length; cbn [length]; lia).
+      destruct pos as [|[|[|[|pos]]]]; [| | | |lia].
+      * rewrite subst_cons_0. cbn [app]. apply view_sound, V_nodelim, Hdel. reflexivity.
+      * cbn [nth] in Hne. change (subst [SD2; Z.of_nat (n + 3); Z.of_nat (n + 3); SD2] 1 v)
+          with [SD2; v; Z.of_nat (n + 3); SD2]. cbn [app].
+        apply view_sound, V_sd2_badhdr; [exact L2|left; exact Hne].
+      * cbn [nth] in Hne. change (subst [SD2; Z.of_nat (n + 3); Z.of_nat (n + 3); SD2] 2 v)
+          with [SD2; Z.of_nat (n + 3); v; SD2]. cbn [app].
+        apply view_sound, V_sd2_badhdr; [exact L2|left; congruence].
+      * cbn [nth] in Hne. change (subst [SD2; Z.of_nat (n + 3); Z.of_nat (n + 3); SD2] 3 v)
+          with [SD2; Z.of_nat (n + 3); Z.of_nat (n + 3); v]. cbn [app].
+        apply view_sound, V_sd2_badhdr; [exact L2|right; left; exact Hne].
+  - rewrite app_nth2 in Hne, Hx by exact Hp. rewrite subst_app_r by exact Hp.
+    set (i := (pos - length pre)%nat) in *.
+    destruct (Nat.ltb_spec i (length body)) as [Hi|Hi].
+    + (* a checksummed byte *)
+      rewrite app_nth1 in Hne, Hx by exact Hi. rewrite subst_app_l by exact Hi.
+      pose proof (sum8_single_change body i v Hi Hx Hv Hne) as Hcs.
+      destruct (subst_body3 da' sa' fcb payload i v Hi) as (a2 & b2 & c2 & p2 & Es & Hl2).
+      fold body in Es. rewrite Es in *. cbn [app].
+      rewrite (view_sound _ _ (V_body pre (length payload) a2 b2 c2 p2 (sum8 body) ED [] Hsh Hl2)).
+      apply body_spec_bad_checksum. congruence.
+    + rewrite app_nth2 in Hne by exact Hi. rewrite subst_app_r by exact Hi.
+      assert (Hi2 : (i - length body = 0 \/ i - length body = 1)%nat) by (subst i; cbn [length] in *; lia).
+      destruct Hi2 as [E|E]; rewrite E in *; cbn [nth] in Hne.
+      * change (subst [sum8 body; ED] 0 v) with [v; ED]. subst body. cbn [app].
+        rewrite (view_sound _ _ (V_body pre (length payload) da' sa' fcb payload v ED [] Hsh eq_refl)).
+        apply body_spec_bad_checksum. exact Hne.
+      * change (subst [sum8 body; ED] 1 v) with [sum8 body; v]. subst body. cbn [app].
+        rewrite (view_sound _ _ (V_body pre (length payload) da' sa' fcb payload _ v [] Hsh eq_refl)).
+        apply body_spec_bad_ed. exact Hne.
+Qed.
+
+Lemma delims_are_bytes : is_byte SD1 /\ is_byte SD2 /\ is_byte SD3 /\ is_byte SD4 /\ is_byte SC /\ is_byte ED.
+Proof. unfold is_byte. vm_compute. repeat split; congruence. Qed.
+
+Lemma frame_spec_all_bytes h pdu :
+  wf_header h -> all_bytes pdu -> (length_byte h (length pdu) <= 249)%nat -> all_bytes (frame_spec h pdu).
+Proof.
+  intros (Hda & Hsa & Hd & Hs) Hp Hlb. unfold is_addr7 in *.
+  destruct delims_are_bytes as (B1 & B2 & B3 & _ & _ & BE).
+  assert (HB : all_bytes (frame_body h pdu)).
+  { unfold frame_body. apply Forall_app. split; [|apply Forall_app; split; [|apply Forall_app; split; [|exact Hp]]].
+    - constructor; [|constructor; [|constructor; [|constructor]]].
+      + unfold is_byte. destruct (h_dsap h); lia.
+      + unfold is_byte. destruct (h_ssap h); lia.
+      + apply fc_to_byte_range.
+    - destruct (h_dsap h); [constructor; [exact Hd|constructor]|constructor].
+    - destruct (h_ssap h); [constructor; [exact Hs|constructor]|constructor]. }
+  unfold frame_spec. rewrite frame_body_length.
+  apply Forall_app. split; [|apply Forall_app; split; [exact HB|]].
+  - destruct (Nat.eqb _ 3); [constructor; [exact B1|constructor]|].
+    destruct (Nat.eqb _ 11); [constructor; [exact B3|constructor]|].
+    constructor; [exact B2|constructor; [unfold is_byte; lia|constructor; [unfold is_byte; lia|constructor; [exact B2|constructor]]]].
+  - constructor; [apply sum8_range|constructor; [exact BE|constructor]].
+Qed.
+
+Lemma all_bytes_nth l pos : all_bytes l -> (pos < length l)%nat -> is_byte (nth pos l 0).
+Proof. intros H Hp. exact (proj1 (Forall_nth _ _) H pos 0 Hp). Qed.
+
+Lemma single_byte_data h pdu pos v :
+  wf_header h -> all_bytes pdu -> (length_byte h (length pdu) <= 249)%nat ->
+  (pos < length (frame_spec h pdu))%nat -> is_byte v -> v <> nth pos (frame_spec h pdu) 0 ->
+  ~ (pos = 0%nat /\ is_delim v = true) ->
+  decode (subst (frame_spec h pdu) pos v) = Ok Reject.
+Proof.
+  intros Hwf Hp Hlb Hpos Hv Hne Hex.
+  pose proof (all_bytes_nth _ pos (frame_spec_all_bytes h pdu Hwf Hp Hlb) Hpos) as Hx.
+  destruct (frame_spec_shape h pdu) as (pre & da' & sa' & fcb & payload & Hsh & EF).
+  rewrite EF in *. rewrite decode_is_spec. f_equal.
+  apply shape_single_byte; try assumption.
+  intros ->. destruct (is_delim v); [exfalso; apply Hex; auto|reflexivity].
+Qed.
+
+Lemma single_byte_sc pos v :
+  (pos < length encode_sc)%nat -> v <> nth pos encode_sc 0 -> ~ (pos = 0%nat /\ is_delim v = true) ->
+  decode (subst encode_sc pos v) = Ok Reject.
+Proof.
+  unfold encode_sc. cbn [length]. intros Hpos Hne Hex. assert (pos = 0%nat) by lia. subst pos.
+  rewrite subst_cons_0. apply view_decode, V_nodelim.
+  destruct (is_delim v); [exfalso; apply Hex; auto|reflexivity].
+Qed.
